@@ -384,7 +384,6 @@ func c12Limit(r *rt.Rec, class, text string, w func(string) map[string]interface
 	}
 }
 
-
 // c12EdgeWhitespaceProbe re-executes the pinned witness of the known finding
 // str-edge-whitespace: ORDER BY on ID strings compares them after trimming
 // surrounding whitespace (pinned by the existing test TestStringLess), so ids
